@@ -3,7 +3,7 @@ use anyhow::Result;
 use crate::parser::{Node, Parser};
 
 use super::{
-    get_net_dependencies, CompilationState, Compile, Declaration, Dependencies, Dependency,
+    CompilationState, Compile, Declaration, Dependencies, Dependency,
 };
 
 #[derive(Debug)]
@@ -26,8 +26,31 @@ impl Dependencies for Block {
         block_dependencies
     }
 
+    /// A name is only supplied to the statements that FOLLOW its declaration: a closure created
+    /// before a local of the same name is declared still depends on the outer variable.
     fn net_dependencies(&self) -> Vec<Dependency> {
-        get_net_dependencies(self, true)
+        let mut supplied: Vec<Dependency> = vec![];
+        let mut result: Vec<Dependency> = vec![];
+
+        for statement in &self.0 {
+            'dependency_loop: for mut dependency in statement.net_dependencies() {
+                for supply in &supplied {
+                    if supply
+                        .eq_allow_callbacks(&dependency)
+                        .expect("idents do not have types")
+                    {
+                        continue 'dependency_loop;
+                    }
+                }
+
+                dependency.increment_cycle();
+                result.push(dependency);
+            }
+
+            supplied.append(&mut statement.supplies());
+        }
+
+        result
     }
 }
 
